@@ -13,6 +13,7 @@ MIDI pitch, the particular accidental signs printed in a note name, integer code
 modes/clefs are not prescribed (only that they decode to what was encoded).
 """
 import itertools
+import os
 import math
 from fractions import Fraction
 
@@ -1466,14 +1467,28 @@ def obj_read_term(kind, f, attr, got):
     return "%s %s %s" % (t1.agree_fn(tgt, impl=True), t1.call_term("T1_music.", tgt.coqname, tgt, args), t1.cres(r, tgt))
 
 
+def _fail_kind(res):
+    """kind of the operation at which a history failed (the last step of its trace), None when it did not fail"""
+    fails, trace = res
+    if not fails:
+        return None
+    return trace[-1][0][0] if trace and isinstance(trace[-1][0], tuple) else "?"
+
+
 def shrink_history(hist, runner):
+    """ddmin over the operations; a sub-history counts only when it still fails at the same kind of operation"""
+    try:
+        kind = _fail_kind(runner(hist))
+    except Exception:
+        return hist
+
     def fails(sub):
         try:
-            return bool(runner(dict(hist, ops=[list(o) for o in sub]))[0])
+            return _fail_kind(runner(dict(hist, ops=[list(o) for o in sub]))) == kind
         except Exception:
-            return True
+            return False
     try:
-        if len(hist["ops"]) < 2 or not fails(hist["ops"]):
+        if kind is None or len(hist["ops"]) < 2:
             return hist
         return dict(hist, ops=[list(o) for o in core.ddmin(hist["ops"], fails)])
     except Exception:
@@ -1486,9 +1501,19 @@ def run_histories(ctx, with_tr=False, objects=True):
     rng = ctx.rng
     quick = ctx.tier == "quick"
     terms, kept = [], []
-    nfail = 0
+    nfail, failed = 0, []
+    hists = []
+    try:   # hand-written / minimised past failures: corpus/C12/histories.json (corpus/C16 for the transposing stream)
+        import json
+        with open(os.path.join(core.VERIF, "corpus", "C16" if with_tr else "C12", "histories.json")) as fh:
+            for h in json.load(fh):
+                hists.append({"init": h["init"], "ops": h["ops"], "kind": "history", "object": "interval"})
+        ctx.count("history:corpus_histories", len(hists))
+    except (OSError, ValueError, KeyError) as e:
+        ctx.extra["history_corpus"] = "not read: %r" % (e,)
     for init in iv_inits(rng, ctx.tier):
-        hist = dict(gen_iv_history(rng, init, rng.randint(5, 9) if quick else rng.randint(6, 14), with_tr), kind="history", object="interval")
+        hists.append(dict(gen_iv_history(rng, init, rng.randint(5, 9) if quick else rng.randint(6, 14), with_tr), kind="history", object="interval"))
+    for hist in hists:
         fails, trace = run_iv_history(hist)
         ctx.evaluations += len(trace)
         ctx.count("history:interval_histories")
@@ -1496,11 +1521,8 @@ def run_histories(ctx, with_tr=False, objects=True):
         for o, g, f in trace:
             ctx.count("history:op_" + o[0])
         if fails:
-            nfail += 1
-            if nfail <= 3:
-                small = shrink_history(hist, run_iv_history)
-                f2 = run_iv_history(small)[0] or fails
-                ctx.violation("state carried on an Interval object between calls: " + "; ".join(f2)[:900], dict(small, failures=f2))
+            simple = bool(trace) and isinstance(trace[-1][2][0], int) and 1 <= trace[-1][2][0] <= 7
+            failed.append((hist, fails, trace[-1][0][0] if trace else "?", 0 if simple else 1))
             continue
         ctx.nontrivial(("ivh", hist["init"], hist["ops"]))
         if _h_printable(trace):
@@ -1509,8 +1531,17 @@ def run_histories(ctx, with_tr=False, objects=True):
         if len(ctx.samples) < 5 and len(terms) == 3:
             ctx.sample({"interval_history": {"init": hist["init"], "steps": [[list(o), list(g), list(f)] for o, g, f in trace]}})
     n_iv = len(terms)
+    # report (shrunk) the failing histories: first those that fail at the operations this property is about
+    prio = ["tr", "tn", "read"] if with_tr else ["read", "tn", "tr"]
+    failed.sort(key=lambda x: (x[3], prio.index(x[2]) if x[2] in prio else len(prio)))   # simple numbers first; stable otherwise
+    ctx.count("history:interval_histories_failing", len(failed))
+    for hist, fails, _, _ in failed[:3]:
+        small = shrink_history(hist, run_iv_history)
+        f2 = run_iv_history(small)[0] or fails
+        ctx.violation("state carried on an Interval object between calls: " + "; ".join(f2)[:900], dict(small, failures=f2))
+    nfail = len(failed)
     if objects:
-        per = 40 if quick else 600
+        per = 60 if quick else 600
         for kind in sorted(OBJ_FIELDS):
             for _ in range(per):
                 hist = dict(gen_obj_history(rng, kind, rng.randint(4, 8)), kind="history")
@@ -1561,9 +1592,20 @@ def run(ctx):
                 "with alter -12..12 / octave -60..120, MIDI pitches -600..1500, printed names with octaves up to 10^6, grammar "
                 "strings (60% documented accidentals), fifths up to +-10^4, tempi 10..400 bpm.  Non-trivial = table rows with "
                 "alter<>0 or octave<>4 or an out-of-range/rejected argument, tick cases with a fractional tick, every distinct "
-                "sampled beyond-domain input.")
+                "sampled beyond-domain input.  HISTORY stream (state carried on an object between calls): real score.Interval "
+                "objects made by the constructor -- all 39 classes x 2 directions twice, 60 of them again, 60 compound inits "
+                "(numbers 8..16) -- each under 5-9 (thorough 6-14) generated operations + a closing sweep of all reads: "
+                ".semitones 24%, transpose_note 18%, change_quality 24% (half a move that stays on the ladder, else 0 / one beyond "
+                "an end / -6..6), quality:= 10% (70% valid for the number), number:= 9% (60% 1..7, 25% 8..16, else 0/negative/"
+                "large), direction:= 5%, validate 6%, str 4%; after EVERY step the observation and the public fields are judged "
+                "from the object's current fields through an independent table, and against a freshly constructed Interval of "
+                "those fields; likewise 60 histories each of Note (step/alter/octave := ; midi_pitch, alter_sign), Tuplet "
+                "(duration_multiplier), KeySignature (name), Tempo (microseconds_per_quarter).  Each distinct history is one "
+                "non-trivial case.")
     ctx.trusted = ["Coq 8.16.1 kernel incl. vm_compute", "T2 tabulator harness/props/c12.py (runs the real functions, prints Coq literals)",
-                   "Python-side oracle used only to name the failing row", "determinism of the tabulated pure functions"]
+                   "Python-side oracle used only to name the failing row", "determinism of the tabulated pure functions",
+                   "history stream: the operation runner / field reader of harness/props/c12.py (run_iv_history) and the printing of "
+                   "observed histories as Coq terms"]
     ctx.assumptions = ["floats in tables are converted to the exact rationals they denote",
                        "near-tie tick cases (exact value within 2^-20 of .5 but not on it) are counted and skipped",
                        "float-valued results (tempo, durations, frequencies) are compared with relative tolerance 1e-9; "
